@@ -20,6 +20,20 @@ rows = ["| id | quick: evaluations / distinct non-trivial / wall | thorough: eva
 for pid in sorted(bud):
     b = bud[pid]
     rows.append("| %s | %s / %s / %s s | %s / %s / %s s |" % (pid, b["q"][0], b["q"][1], b["q"][2], b["t"][0], b["t"][1], b["t"][2]))
+ben = [json.load(open(p)) for p in sorted(glob.glob(os.path.join(V, "benign", "*", "meta.json")))]
+def _held(m, tier):
+    return all(r.get(tier) == 0 for r in m.get("checks", {}).values() if tier in r)
+nb = len(ben)
+q_ok = [m["id"] for m in ben if m.get("checks") and _held(m, "quick")]
+t_run = [m["id"] for m in ben if any("thorough" in r for r in m.get("checks", {}).values())]
+t_ok = [m["id"] for m in t_run and ben if m["id"] in t_run and _held(m, "thorough")]
+alarms = [m["id"] for m in ben if m.get("checks") and not _held(m, "quick")]
+benign_summary = ("Outcome: %d variants kept; the quick check stayed silent on %d of them%s%s. Variants on which a check "
+                  "raised an alarm, and what the triage found (meta.json `triage`): %s."
+                  % (nb, len(q_ok), (", the thorough tier on %d of the %d it was run on" % (len(t_ok), len(t_run))) if t_run else "",
+                     "", (", ".join("%s (%s)" % (m["id"], (m.get("triage") or "not triaged yet")[:400]) for m in ben if m["id"] in alarms or m.get("triage")) or "none")))
+relax = open(os.path.join(V, "docs", "relax_summary.txt")).read().strip() if os.path.exists(os.path.join(V, "docs", "relax_summary.txt")) else "(pending)"
+src = src.replace("<<BENIGN_SUMMARY>>", benign_summary).replace("<<RELAX_SUMMARY>>", relax)
 out = src.replace("<<MUT_TABLE>>", mut).replace("<<SEED_TABLE>>", seed).replace("<<NSEEDS>>", str(n)).replace("<<SEED_SUMMARY>>", summary).replace("<<BUDGET_TABLE>>", "\n".join(rows))
 p = os.path.join(V, "DESIGN.md")
 d = open(p).read()
